@@ -220,8 +220,15 @@ class World(object):
         self.prefix = prefix
         self.roots = {False: ['root'], True: ['root', 'root2'], 'reversed': ['root2', 'root'], 'nested': ['root', 'root2'], 'index0': ['root', 'root2'],
                       'cached': ['root', 'root2'], 'spell-path': ['root'], 'spell-bytes': ['root'],
-                      'spell-iter': ['root', 'root2'], 'spell-paths': ['root', 'root2']}[two_paths]
+                      'spell-iter': ['root', 'root2'], 'spell-paths': ['root', 'root2'], 'late-dir': ['root', 'root2']}[two_paths]
         s1 = StaticApplication([os.path.join(tree.base, r) for r in self.roots])
+        if two_paths == 'late-dir':
+            # the first search directory does not exist yet when the application is constructed (a build / override
+            # directory); it appears afterwards and is searched first from then on
+            alias = os.path.join(tree.base, 'late-%d' % (id(self) % 100000))
+            s1 = StaticApplication([alias, os.path.join(tree.base, 'root2')])
+            if not os.path.lexists(alias):
+                os.symlink(os.path.join(tree.base, 'root'), alias)
         if str(two_paths).startswith('spell-'):
             # other spellings of the search path: one pathlib.Path, one bytes path, a one-shot iterable, Path objects
             import pathlib
@@ -333,6 +340,7 @@ def configs(tier):
     out.append(('/s', 'redirect', 'index0'))
     for sp in ('spell-path', 'spell-bytes', 'spell-iter', 'spell-paths'):
         out.append(('/s', 'redirect', sp))
+    out.append(('/s', 'redirect', 'late-dir'))
     out.append(('/s', 'redirect', 'cached'))
     out.append(('/', 'strict', 'cached'))
     return out
